@@ -27,7 +27,11 @@ TNext ==
   /\ LET e == Rec[l] IN
      IF Bad(e) = {} THEN TRUE
      ELSE PrintT(<<"MISMATCH", ToJson([i |-> e.i, case |-> e.case, op |-> e.a.op,
-                                       violated |-> SetToSortSeq(Bad(e), LAMBDA a, b : TRUE)])>>)
+                                       violated |-> SetToSortSeq(Bad(e), LAMBDA a, b : TRUE),
+                                       derived |-> IF e.ev = "Unreadable" THEN <<>>
+                                                   ELSE SetToSortSeq(DerivedBadNames(e.o.cross), LAMBDA a, b : TRUE),
+                                       cffidx |-> IF e.ev = "Unreadable" THEN <<>>
+                                                  ELSE SetToSortSeq(CffBadIndexes(e.o.cross), LAMBDA a, b : TRUE)])>>)
 TSpec == TInit /\ [][TNext]_l
 AllConsumed == TLCGet("stats").diameter = Len(Rec) + 1
 =============================================================================
